@@ -163,6 +163,17 @@ func EvalText(text string, data map[string]interface{}) EvalOut {
 	if pure && data != nil {
 		before = Snapshot(data, func(string) bool { return true })
 	}
+	if extras && data != nil && extraCalls%2 == 0 {
+		// A parsed tree holds no data: it may have been evaluated before, by another runner over another
+		// record with other values under the same names, and serves this record like a fresh tree.
+		other := make(map[string]interface{}, len(data))
+		for k, v := range data {
+			other[k] = decoy(v)
+		}
+		r0 := formula.NewRunner()
+		r0.SetThis(other)
+		Eval(r0, context.Background(), p.Src.Expression)
+	}
 	out := Eval(r, context.Background(), p.Src.Expression)
 	if pure && data != nil {
 		// a formula without locals only reads: the caller's data (nested values and their Go types included) is as it was
@@ -179,9 +190,15 @@ func EvalText(text string, data map[string]interface{}) EvalOut {
 			r2.SetThis(data)
 		}
 		a := out.String()
+		// ... and so must the field analysis a host runs on the tree between two evaluations
+		func() {
+			defer func() { recover() }()
+			formula.ResolveReferenceFields(p.Src)
+			formula.ResolveReferenceFieldsNotLocal(p.Src)
+		}()
 		out2 := Eval(r2, context.Background(), p.Src.Expression)
 		if b := out2.String(); a != b {
-			return EvalOut{Panic: fmt.Sprintf("the second evaluation of the same parsed tree of %q gave %s, the first gave %s", text, b, a)}
+			return EvalOut{Panic: fmt.Sprintf("the second evaluation of the same parsed tree of %q (after the field analysis of that tree) gave %s, the first gave %s", text, b, a)}
 		}
 		// A result belongs to the caller: later evaluations (the second one above, an unrelated one here)
 		// must not reach into the value that was handed out first.
